@@ -62,13 +62,31 @@ def run(ctx, chk):
             else:
                 chk.ok("C14.R1", f"{label}:{name}", f"'{desc}' -> error!, nothing emitted")
 
+    def presence(c, mapname):
+        """what a path condition says about a key being in the map: True (present), False (absent), None (nothing).
+        Recognised tests: `map.get(k)` matched against Some/None (match, if let, is_some/is_none) and contains_key"""
+        desc, truth = c[0], bool(c[1])
+        neg = desc.lstrip().startswith("!")
+        if f"{mapname}.contains_key" in desc:
+            return truth != neg
+        if f"{mapname}.get" in desc:
+            if "matches Some" in desc or ".is_some()" in desc:
+                return truth != neg
+            if "matches None" in desc or ".is_none()" in desc:
+                return not (truth != neg)
+            if "Some" in desc:
+                return truth
+            if "None" in desc:
+                return not truth
+        return None
+
     cond_rule("jmps_loops", lambda c: "LabelType::DATA" in c[0] and c[1], "jump-to-data-label", "jump to a data label")
-    cond_rule("label", lambda c: "label_map.get" in c[0] and "Some" in c[0] and c[1], "duplicate-label", "label already defined")
-    cond_rule("proc_def", lambda c: "fn_map.get" in c[0] and "Some" in c[0] and c[1], "duplicate-procedure", "procedure already declared")
+    cond_rule("label", lambda c: presence(c, "label_map") is True, "duplicate-label", "label already defined")
+    cond_rule("proc_def", lambda c: presence(c, "fn_map") is True, "duplicate-procedure", "procedure already declared")
     for nt in ("byte_label", "word_label", "offset"):
-        cond_rule(nt, lambda c: "label_map.get" in c[0] and "None" in c[0] and c[1], "unknown-label", "label not defined")
+        cond_rule(nt, lambda c: presence(c, "label_map") is False, "unknown-label", "label not defined")
         cond_rule(nt, lambda c: "LabelType::CODE" in c[0] and c[1], "code-label-as-data", "code label used as data operand")
-    cond_rule("call", lambda c: "fn_map.contains_key" in c[0] and (("!" in c[0]) == bool(c[1])), "call-non-procedure", "call of something that is not a procedure")
+    cond_rule("call", lambda c: presence(c, "fn_map") is False, "call-non-procedure", "call of something that is not a procedure")
     # int set
     ints = int_constants(E, "int")
     if ints == {3, 0x10, 0x21}:
